@@ -8,7 +8,7 @@ from .common import compositions, make_gmm, total
 
 FUNCTIONS = ["utils.check_and_persist_dask_input", "utils.array_to_delayed_list", "kmeans.KMeansMachine.fit (Dask branch)", "kmeans.e_step/m_step", "gmm.GMMMachine.fit (Dask branch)", "gmm.e_step/m_step",
              "factor_analysis.FactorAnalysisBase.fit_using_array/initialize/initialize_using_array", "ISVMachine.fit / JFAMachine.fit (Dask branches)", "reduce_iadd",
-             "(WCCN, whitening and the cluster variances/weights are compared with their oracles for NumPy and Dask input in C14 / C20)"]
+             "wccn.WCCN.fit / whitening.Whitening.fit (Dask vs NumPy for every row chunking; also against their oracles in C14)", "(cluster variances/weights per chunking: C20)"]
 STUBS = ["Dask: array = eager data + chunks; to_delayed = one task input per block; delayed/compute = task graph run by an executor model with a task-order policy (fifo, lifo, seeded random) and"
          " an isolation switch (deep copies of every task's function receiver, inputs and result = serialisation to a worker)", "persist/rebalance: identity", "cdist, k_init(array), inv closed form"]
 ASSUMPTIONS = ["one training iteration from an arbitrary symbolic state (explicit k-means centroids / GMM parameters / U,V,D): the next iteration's input and the stopping test depend only on"
@@ -91,6 +91,35 @@ def sc_fa(B, kind, C, chunks, labels, policy, isolated):
     return o
 
 
+def sc_linear_tx(B, which, chunks, policy, isolated):
+    """WCCN / whitening on a Dask array == on the in-memory array, for every row chunking"""
+    N, D = 4, 2
+    X = B.arr("x", (N, D))
+    labels = [0, 1, 0, 1]
+    if which == "wccn":
+        mod = B.mod("wccn").WCCN
+        ref = mod().fit(B.copy(X), list(labels))
+        B.executor(policy, isolated)
+        m = mod().fit(B.darr(B.copy(X), (chunks, (D,))), list(labels))
+    else:
+        mod = B.mod("whitening").Whitening
+        ref = mod().fit(B.copy(X))
+        B.executor(policy, isolated)
+        m = mod().fit(B.darr(B.copy(X), (chunks, (D,))))
+        o_sub = (m.input_subtract, ref.input_subtract)
+    o = Outcome()
+    o.same("weights", m.weights, ref.weights)
+    if which == "whitening":
+        o.same("input_subtract", o_sub[0], o_sub[1])
+    return o
+
+
+def job_linear_tx(P, which):
+    for comp in compositions(4):
+        pol, iso = EXECS[len(comp) % 2]
+        P.run("%s-%s" % (which, "+".join(map(str, comp))), sc_linear_tx, dict(which=which, chunks=comp, policy=pol, isolated=iso), linalg="uf", validate=1 if len(comp) == 2 else 0)
+
+
 def job_kmeans(P, K, D, N, chunks):
     for pol, iso in EXECS[:2]:
         P.run("kmeans-%s-%s" % (pol if isinstance(pol, str) else "rand%d" % pol[1], "iso" if iso else "shared"), sc_kmeans, dict(K=K, D=D, N=N, chunks=chunks, policy=pol, isolated=iso), validate=1)
@@ -121,6 +150,8 @@ def jobs(tier):
             out.append(("gmm-%s-rows-%s" % (tr, "+".join(map(str, comp))), "job_gmm", dict(C=C, D=D, N=N, chunks=(comp, (D,)), trainer=tr)))
     out.append(("gmm-ml-features", "job_gmm", dict(C=2, D=2, N=2, chunks=((2,), (1, 1)), trainer="ml")))
     out.append(("gmm-map-features", "job_gmm", dict(C=2, D=2, N=2, chunks=((1, 1), (1, 1)), trainer="map")))
+    for which in ("wccn", "whitening"):
+        out.append(("lineartx-" + which, "job_linear_tx", dict(which=which)))
     for kind in ("isv", "jfa"):
         for labels in ([0, 0, 1, 1], [1, 0, 1, 0]):
             for comp in ((4,), (2, 2), (1, 3), (1, 1, 1, 1)):
